@@ -1,31 +1,33 @@
 import JL.Generated.Fns
+import JL.Lemmas.TieAuto
 import JL.Lemmas.TieC
 /-! tie: `radix_literal`, as translated from the crate's current source, is the model's function - for every input -/
 namespace JL.Tie
 open JL JL.Lemmas.TieC
+set_option linter.unusedSimpArgs false
 
-/-- one prefix letter: the translated digit loop is `radixLoop radix bits` (`for_radixLoop`; the body's step equation uses
-`digit < 2^bits`), then the float arithmetic is rewritten with the abstracted rules of `TieC` (never unfolding `F64.ofNat`) -/
+/-- one prefix letter. The code is normalised first (the casts and float operations by the abstracted rules of `TieC`, never
+unfolding `F64.ofNat`); its digit loop is then `radixLoop radix bits` by `for_radixLoop`, whatever the body looks like, provided
+the body performs one step of `radixLoop` - which is checked by cases on the digit (`digit < 2^bits` gives `<< |` = `* +`);
+what follows the loop is closed by cases on the loop's result. -/
 local macro "radix_case" radix:num bits:num : tactic => `(tactic| (
-  simp only [JsOp.radixLiteral]
+  simp only [↓powi_two, ↓powi_two', ↓to_f64_nat, ↓mul_f64, ↓gt_nat, ↓to_u64_bool, rs, tie, JsOp.radixLiteral]
   rw [for_radixLoop $radix $bits (some none)]
-  · simp only [powi_two, powi_two', to_f64_nat, mul_f64, gt_nat, to_u64_bool, Rs.bitor, or_sticky]
-    cases h : JsOp.radixLoop $radix $bits _ (0, 0, false) <;> simp [rs, h, or_sticky]
+  · tie_close [or_sticky] splitting JsOp.radixLoop
   · intro acc shift sticky c
     cases h : JsOp.toDigit $radix c with
-    | none => simp [rs, h]
+    | none => tie_close [h]
     | some d =>
       have := shl_or (bits := $bits) (toDigit_lt h) acc
-      simp [rs, h, shr_eq_zero, this, -Nat.reducePow]
-      rfl))
+      tie_close [h, shr_eq_zero, this, -Nat.reducePow]))
 
 theorem radix_literal (s : Str) : Gen.radix_literal s = JsOp.radixLiteral s := by
   unfold Gen.radix_literal
+  -- the cases of the model: fewer than two characters, no leading `0`, each prefix letter, any other second character
   match s with
-  | [] => simp [rs, JsOp.radixLiteral]
-  | [a] => simp [rs, JsOp.radixLiteral]
+  | [] => tie_close [JsOp.radixLiteral]
+  | [a] => tie_close [JsOp.radixLiteral]
   | a :: p :: digits =>
-    simp only [Rs.next]
     by_cases ha : a = '0'
     · subst ha
       by_cases hx : p = 'x'
@@ -40,7 +42,7 @@ theorem radix_literal (s : Str) : Gen.radix_literal s = JsOp.radixLiteral s := b
       · subst hb; radix_case 2 1
       by_cases hB : p = 'B'
       · subst hB; radix_case 2 1
-      · simp [rs, JsOp.radixLiteral, hx, hX, ho, hO, hb, hB]
-    · simp [rs, JsOp.radixLiteral, ha]
+      · tie_close [JsOp.radixLiteral, hx, hX, ho, hO, hb, hB]
+    · tie_close [JsOp.radixLiteral, ha]
 
 end JL.Tie
